@@ -17,7 +17,12 @@ KINDS = ["map", "filter", "flatmap", "head", "fold", "writer", "scan", "const", 
 
 def gen_up(r, maxrows=40, script=True, fail=False):
     n = r.choice([0, 0, 1, 2, 3, 5, 8, 13, r.rng(0, maxrows)])
-    rows = ["%d:%d" % (r.rng(0, 9), r.rng(0, 50)) for _ in range(n)]
+    nk = 9
+    if maxrows > 100:
+        # more rows than the 128-row internal buffers of the merging readers, with enough distinct keys
+        n = r.choice([127, 128, 129, 130, 200, 257, r.rng(100, 300)])
+        nk = r.choice([9, 60, 400])
+    rows = ["%d:%d" % (r.rng(0, nk), r.rng(0, 50)) for _ in range(n)]
     s = "IN " + " ".join(rows)
     if script and r.chance(3, 4):
         steps = []
@@ -56,7 +61,8 @@ def gen(r, tier):
         elif kind == "cogroup":
             nups = r.rng(1, 3)
         scripted = kind not in ("frame", "const", "taskbuf")
-        ups = [gen_up(r, script=scripted, fail=(fail and j == 0)) for j in range(nups)]
+        big = kind in ("cogroup", "fold", "multi", "emulti", "taskbuf", "flatmap", "filter") and i % 5 == 0
+        ups = [gen_up(r, maxrows=(300 if big else 40), script=scripted, fail=(fail and j == 0)) for j in range(nups)]
         dest = [r.rng(1, 7) for _ in range(r.rng(1, 4))]
         if r.chance(1, 10):
             dest = [r.choice([1, 128, 200])]
